@@ -126,11 +126,6 @@ def step (s : St) (toks : List String) : St × String :=
     match parseDir d, parseBool es, unhex b with
     | some d, some es, some b => dataOp s d b es
     | _, _, _ => (s, "bad-op")
-  | ["u32lt", n, l] =>
-    -- `uint32(n) < l` as adapter.Data compares the buffer length with the announced length
-    match n.toNat?, l.toNat? with
-    | some n, some l => (s, b01 (decide (u32 n < l)))
-    | _, _ => (s, "bad-op")
   | ["pfx", n] =>
     -- the four length bytes emitter.Message writes for an n-byte payload, and what adapter.Data reads from them
     match n.toNat? with
